@@ -726,14 +726,15 @@ PRINT_VALUES = [
     lambda env: R.Bin('/', R.Var('y'), N(value=2)), lambda env: R.Bin('<', N(value=1), N(value=2)),
     lambda env: R.Bin('and', N(value=1), N(value=0)), lambda env: R.CallE('twice', [N(value=4)]),
 ]
-FIELDS = ['{}', '{:>5}', '{:<4}|', '"{}"', '"', '{hue}', '{y}', '{s}', '{pth}', '{y:03d}', '{{x}}', 'txt ', '\\n', '{kelvin:>6}']
+FIELDS = ['{}', '{:>5}', '{:<4}|', '"{}"', '"', '{name}', '{result:>4}', '{Hue}', '{pc}', '{power}', '{hue}', '{y}', '{s}', '{pth}', '{y:03d}', '{{x}}', 'txt ', '\\n', '{kelvin:>6}']
 
 
 def output_program():
     def gen(ch):
         env = Env(ch)
         stmts = [R.SetReg('hue', N(value=120)), R.SetReg('saturation', N(value=50)), R.SetReg('kelvin', N(value=2000)),
-                 R.Assign('y', N(value=7)), R.Assign('s', R.Str('lamp')), R.Assign('pth', R.Str('a\\nb')), R.Assign('x', env.num('val')),
+                 R.Assign('y', N(value=7)), R.Assign('s', R.Str('lamp')), R.Assign('name', R.Str('nm')), R.Assign('result', N(value=41)), R.Assign('Hue', N(value=-1)),
+                 R.Assign('pc', N(value=-2)), R.Assign('power', R.Str('pw')), R.Assign('pth', R.Str('a\\nb')), R.Assign('x', env.num('val')),
                  R.RoutineDef('twice', ['v'], [R.Return(R.Bin('*', R.Var('v'), N(value=2)))])]
 
         def out_stmt(last):
